@@ -660,6 +660,8 @@ func checkC02(c *Ctx, r *Report) {
 	ruleDeclareThenInit(c, r, "declare-then-init")
 	ruleDupScope(c, r, "dup-scope")
 	ruleFieldAccess(c, r, "field-access")
+	// an assignment is an expression: what follows '=' is a full expression again (a = b = 3)
+	ruleAssignRHS(c, r, "nested-assignment")
 	ruleVarintWrappers(c, r, "slot-operand-codec", "")
 	// scope exit helpers
 	r.rule("scope-exit", 3, "endScope pops exactly the locals it removes; popN emits the matching instruction; addLocal declares with depth -1")
